@@ -97,12 +97,15 @@ def plan(tier):
                 "{fresh instance, 6 dirty instances}; (b) all interleavings of 2 (thorough: also 3) instances x 3 steps x "
                 "every construction position x all ordered configuration tuples x program pairs; "
                 "state = (program, prefix, instance history) resp. (schedule)" % (len(ARM_MENU), len(THUMB_MENU)),
-        "bounds": {"program_length": L, "configs": CONFIGS, "instances": 2 if tier == "quick" else "2 and 3",
+        "bounds": {"program_length": L, "steps_per_program": "program length + %d (handlers at the vectors return into the program)" % EXTRA_STEPS, "configs": CONFIGS, "instances": 2 if tier == "quick" else "2 and 3",
                    "interleavings_2x3": 20, "interleavings_3x2": 90},
         "exhaustive": True,
         "assumptions": ["traces compare the full architectural snapshot (all registers, system registers, memory) after "
                         "every step"],
     }
+
+
+EXTRA_STEPS = 2
 
 
 def digest(snap):
@@ -131,6 +134,15 @@ def setup_instance(cfg, thumb, program, flags=0):
     for olen, word in program:
         machine.put_instr(cpu, addr, word, thumb, olen)
         addr += olen // 8
+    # returning handlers at both possible vector bases (UND, SVC: MOVS pc,lr; aborts: SUBS pc,lr,#4), so that longer
+    # runs contain exception RETURNS followed by ordinary code (hidden per-instance state set by one, seen by the other)
+    te = regs.sctlr.te
+    for vb in (0x0, 0x10400):
+        for off, sub in ((4, 0), (8, 0), (0xC, 4), (0x10, 4)):
+            if te:
+                machine.put_instr(cpu, vb + off, 0xF3DE8F00 | sub, True, 32)
+            else:
+                machine.put_instr(cpu, vb + off, 0xE1B0F00E if sub == 0 else 0xE25EF004, False, 32)
     regs.branch_to(CODE)
     plan = machine.Plan(cpu)
     plan.reset_scratch()
@@ -186,7 +198,8 @@ def snap_shard(res, iset, first, L):
         cpu, plan = setup_instance({}, thumb, prog)
         snaps = [plan.snapshot()]
         ref = []
-        for _ in range(len(p)):
+        nsteps = len(p) + EXTRA_STEPS        # room for handler entry + return in programs that raise exceptions
+        for _ in range(nsteps):
             out = machine.step(cpu)
             s = plan.snapshot()
             snaps.append(s)
@@ -194,11 +207,11 @@ def snap_shard(res, iset, first, L):
         # a second run from scratch must give the same trace
         cpu2, plan2 = setup_instance({}, thumb, prog)
         res.cases += 1
-        res.transitions += len(p)
-        if trace_steps(cpu2, plan2, len(p)) != ref:
+        res.transitions += nsteps
+        if trace_steps(cpu2, plan2, nsteps) != ref:
             res.fail("rerun-differs", "program %r gives different traces on two fresh instances" % names_of(iset, p),
                      {"iset": iset, "program": list(p)})
-        for k in range(len(p)):
+        for k in range(nsteps):
             targets = [("fresh", None)] + [("after %r" % (names_of(iset, h),), (c, pl)) for h, c, pl in dirty]
             for label, inst in targets:
                 if inst is None:
@@ -212,8 +225,8 @@ def snap_shard(res, iset, first, L):
                     mc.mem.memory_array[:] = data
                 res.cases += 1
                 res.add_state(hash((iset, p, k, label)))
-                got = trace_steps(c3, p3, len(p) - k)
-                res.transitions += len(p) - k
+                got = trace_steps(c3, p3, nsteps - k)
+                res.transitions += nsteps - k
                 res.outcome("continuation-" + ("fresh" if inst is None else "dirty"))
                 if got != ref[k:]:
                     pos = next(i for i, (x, y) in enumerate(zip(got, ref[k:])) if x != y)
